@@ -193,6 +193,17 @@ def run(ctx):
                           "is_block_terminator(Op::%s) but Builder::%s leaves the block open" % (opn, meths[0]), {"method": meths[0]})
         else:
             ctx.ob("builder/keeps-block/%s" % opn, st == "unsat" or None)
+    # ... and the methods that reach end_block / insert_end_block really do close the block, for every insertion point (MIR)
+    try:
+        import c12
+        import c05
+        fields = {"Module": c05.struct_fields("rspirv/dr/constructs.rs", "Module"), "Function": c05.struct_fields("rspirv/dr/constructs.rs", "Function"),
+                  "Block": c05.struct_fields("rspirv/dr/constructs.rs", "Block"), "Builder": c05.struct_fields("rspirv/dr/build/mod.rs", "Builder")}
+        nid = z3.BitVec("next_id", 32)
+        c12.every_terminator(ctx, q, mir.MirFile(mir_path("rspirv")), mir.MirFile(mir_path("spirv")), registry, fields, nid,
+                             [z3.UGE(nid, 1), z3.ULE(nid, 0xfffffff0)], rp)
+    except mir.Unsupported as ex:
+        ctx.ob("builder/terminators-close-the-block/encodable", None, str(ex)[:300])
     rp.close()
     ctx.validated = rp.count
     ctx.extra["observations_name_rule_only"] = observations
